@@ -46,7 +46,9 @@ Atom(s, cx) ==
     [] k = 14 -> Nil
     [] k = 15 -> IF cx.acts THEN Act(0) ELSE ConsAtom(s, cx)
     [] k = 16 -> IF cx.preds THEN Pred(Pick(s, 13, 3) # 0) ELSE ConsAtom(s, cx)
-    [] k = 17 -> SeqE(<<ConsAtom(s, cx), Ref(RuleName(1 + Pick(s, 14, cx.n)))>>)   \* guarded (possibly recursive) call
+    [] k = 17 -> IF cx.capnull /\ Pick(s, 15, 2) = 0
+                 THEN SeqE(<<Cap(IF Pick(s, 16, 2) = 0 THEN Opt(ConsAtom(s, cx)) ELSE Star(ConsAtom(s, cx))), Act(0)>>)   \* a capture that may be empty, then an action
+                 ELSE SeqE(<<ConsAtom(s, cx), Ref(RuleName(1 + Pick(s, 14, cx.n)))>>)   \* guarded (possibly recursive) call
     [] k \in 18..19 -> IF cx.self < cx.n THEN Ref(RuleName(cx.n)) ELSE ConsAtom(s, cx)
 
 RECURSIVE GenE(_, _, _)
@@ -102,6 +104,15 @@ FirstForm(s, cx) ==
        [] k = 16 -> SeqE(<<Star(SeqE(<<a, Opt(b)>>)), c>>)
        [] k = 17 -> AltE(<<a, b, c>>)
 SwitchAlt(s, cx) ==
+  LET f == IF cx.self = 4 /\ Pick(s, 67, 3) = 0 THEN Ref(IF Pick(s, 68, 2) = 0 THEN "A" ELSE "B") ELSE FirstForm(s, cx)
+      k == Pick(s, 64, 8)
+  IN CASE k \in 0..1 -> f
+       [] k = 2 -> SeqE(<<f, ConsAtom(H(s, 65), cx)>>)
+       [] k = 3 -> SeqE(<<f, Opt(ConsAtom(H(s, 65), cx))>>)
+       [] k = 4 -> SeqE(<<f, Act(0)>>)
+       [] k = 5 -> SeqE(<<f, ConsAtom(H(s, 65), cx), ConsAtom(H(s, 66), cx)>>)
+       [] k \in 6..7 -> IF cx.self \in {2, 3} THEN SeqE(<<f, Ref("D"), Opt(ConsAtom(H(s, 65), cx))>>) ELSE SeqE(<<f, ConsAtom(H(s, 65), cx)>>)
+SwitchAltOld(s, cx) ==
   LET f == FirstForm(s, cx)
       k == Pick(s, 64, 6)
   IN CASE k \in 0..1 -> f
@@ -119,8 +130,50 @@ GenSwitch(s, cx) ==
                 [] k = 4 -> SeqE(<<Plus(alt), Not(Dot)>>)
                 [] k = 5 -> SeqE(<<ConsAtom(H(s, 81), cx), alt>>)
       rules == << [name |-> "A", body |-> body],
-                  [name |-> "B", body |-> SwitchAlt(H(s, 90), [cx EXCEPT !.n = 1])],
-                  [name |-> "C", body |-> AltE(<<SwitchAlt(H(s, 91), [cx EXCEPT !.n = 1]), SwitchAlt(H(s, 92), [cx EXCEPT !.n = 1])>>)] >>
+                  [name |-> "B", body |-> SwitchAlt(H(s, 90), [cx EXCEPT !.n = 1, !.self = 2])],
+                  [name |-> "C", body |-> AltE(<<SwitchAlt(H(s, 91), [cx EXCEPT !.n = 1, !.self = 3]), SwitchAlt(H(s, 92), [cx EXCEPT !.n = 1, !.self = 3])>>)],
+                  \* D is only reached after B or C consumed something, so its alternatives may begin with A or B again
+                  [name |-> "D", body |-> AltE([i \in 1..(3 + Pick(s, 93, 2)) |-> SwitchAlt(H(s, 94 + i), [cx EXCEPT !.n = 1, !.self = 4])])] >>
+  IN NumberActions(Prune([rules |-> rules]))
+
+(* ---------- the "memo" shape: rules re-entered at the same offset after backtracking -------- *)
+\* leaf rules L1..L3 consume one character (and may carry a capture / action); X, Y, Z are built
+\* from leaves (X, Z: several tokens; Y: fewer tokens over the same text); A tries sequences that
+\* share prefixes and differ late, so X/Y/Z are revisited through the memo table after other
+\* branches have overwritten the token buffer.
+MemoLeaf(s, cx) ==
+  LET a == ConsAtom(H(s, 1), [cx EXCEPT !.sugar = FALSE]) k == Pick(s, 2, 4) IN
+  CASE k = 0 -> a [] k = 1 -> Cap(a) [] k = 2 -> SeqE(<<Cap(a), Act(0)>>) [] k = 3 -> SeqE(<<a, Act(0)>>)
+MemoMid(s, cx, deep) ==
+  LET l(i) == Ref(<<"L", "M", "N">>[1 + Pick(s, 10 + i, 3)])
+      k == Pick(s, 3, 5)
+  IN IF deep
+     THEN CASE k \in 0..1 -> SeqE(<<l(1), l(2)>>) [] k = 2 -> SeqE(<<l(1), Opt(l(2))>>) [] k = 3 -> SeqE(<<l(1), l(2), l(3)>>)
+            [] k = 4 -> Cap(SeqE(<<l(1), l(2)>>))
+     ELSE CASE k \in 0..1 -> SeqE(<<ConsAtom(H(s, 4), cx), ConsAtom(H(s, 5), cx)>>) [] k = 2 -> SeqE(<<l(1), ConsAtom(H(s, 5), cx)>>)
+            [] k = 3 -> SeqE(<<ConsAtom(H(s, 4), cx), Opt(ConsAtom(H(s, 5), cx))>>) [] k = 4 -> Plus(ConsAtom(H(s, 4), cx))
+MemoItem(s, cx) ==
+  LET r(i) == Ref(<<"X", "Y", "Z">>[1 + Pick(s, 20 + i, 3)])
+      k == Pick(s, 6, 10)
+  IN CASE k \in 0..4 -> r(1)
+       [] k = 5 -> AltE(<<r(1), r(2)>>)
+       [] k = 6 -> SeqE(<<And(r(1)), r(2)>>)
+       [] k = 7 -> SeqE(<<Not(r(1)), r(2)>>)
+       [] k = 8 -> Opt(r(1))
+       [] k = 9 -> ConsAtom(H(s, 7), cx)
+MemoSeq(s, cx, i) ==
+  LET n == 1 + Pick(s, 30, 3)
+      tail == <<Chr(cx.alpha[1 + ((i + Pick(s, 31, 2)) % Len(cx.alpha))])>> \o (IF Pick(s, 32, 2) = 0 THEN <<Not(Dot)>> ELSE <<>>)
+  IN SeqE([j \in 1..n |-> MemoItem(H(s, 40 + j), cx)] \o tail)
+GenMemo(s, cx) ==
+  LET n == 2 + Pick(s, 50, 3)
+      rules == << [name |-> "A", body |-> AltE([i \in 1..n |-> MemoSeq(H(s, 51 + i), cx, i)])],
+                  [name |-> "X", body |-> MemoMid(H(s, 60), cx, TRUE)],
+                  [name |-> "Y", body |-> MemoMid(H(s, 61), cx, FALSE)],
+                  [name |-> "Z", body |-> MemoMid(H(s, 62), cx, TRUE)],
+                  [name |-> "L", body |-> MemoLeaf(H(s, 63), cx)],
+                  [name |-> "M", body |-> MemoLeaf(H(s, 64), cx)],
+                  [name |-> "N", body |-> MemoLeaf(H(s, 65), cx)] >>
   IN NumberActions(Prune([rules |-> rules]))
 
 (* ---------- inputs ------------------------------------------------------- *)
@@ -154,27 +207,31 @@ PlanEntry(entry, memo, size, u, skipi) == [entry |-> entry, memo |-> memo, size 
 \* family parameters
 Fam ==
   CASE FAMILY = "core" ->   \* C01 C02 C03 C06: every core operator, sugar, predicates; tokens only
-         [cx |-> [alpha |-> ABC, acts |-> TRUE, caps |-> TRUE, preds |-> TRUE, sugar |-> TRUE, maxrules |-> 4, self |-> 1, n |-> 1],
+         [cx |-> [alpha |-> ABC, acts |-> TRUE, caps |-> TRUE, preds |-> TRUE, sugar |-> TRUE, capnull |-> FALSE, maxrules |-> 4, self |-> 1, n |-> 1],
           depth |-> 3, optsets |-> Plain4, exhaust |-> 3, alphaIn |-> ABC, extraAlpha |-> <<97, 98, 99, 65, 100>>, nextra |-> 10,
           collect |-> [toks |-> TRUE, exec |-> FALSE, ast |-> FALSE, msg |-> FALSE], entries |-> TRUE, memoOff |-> TRUE, act |-> "full"]
     [] FAMILY = "act" ->    \* C04 C05 C11: actions and captures everywhere; multi-line, multi-byte inputs
-         [cx |-> [alpha |-> <<97, 98, 10, 233, 27721>>, acts |-> TRUE, caps |-> TRUE, preds |-> FALSE, sugar |-> FALSE, maxrules |-> 3, self |-> 1, n |-> 1],
+         [cx |-> [alpha |-> <<97, 98, 10, 233, 27721>>, acts |-> TRUE, caps |-> TRUE, preds |-> FALSE, sugar |-> FALSE, capnull |-> FALSE, maxrules |-> 3, self |-> 1, n |-> 1],
           depth |-> 3, optsets |-> <<"">>, exhaust |-> 2, alphaIn |-> <<97, 98, 10, 233, 27721>>, extraAlpha |-> <<97, 98, 10, 233, 27721, 128512>>, nextra |-> 30,
           collect |-> [toks |-> TRUE, exec |-> TRUE, ast |-> TRUE, msg |-> TRUE], entries |-> FALSE, memoOff |-> FALSE, act |-> "full"]
     [] FAMILY = "switch" -> \* C02 C08: choices of >= 3 consuming alternatives (the shape -switch rewrites)
-         [cx |-> [alpha |-> <<97, 98, 99, 100, 101, 102>>, acts |-> TRUE, caps |-> TRUE, preds |-> FALSE, sugar |-> TRUE, maxrules |-> 3, self |-> 1, n |-> 1],
+         [cx |-> [alpha |-> <<97, 98, 99, 100, 101, 102>>, acts |-> TRUE, caps |-> TRUE, preds |-> FALSE, sugar |-> TRUE, capnull |-> FALSE, maxrules |-> 3, self |-> 1, n |-> 1],
           depth |-> 0, optsets |-> Plain4, exhaust |-> 2, alphaIn |-> <<97, 98, 99, 100, 101, 102>>, extraAlpha |-> <<97, 98, 99, 100, 101, 102, 65, 122>>, nextra |-> 40,
           collect |-> [toks |-> TRUE, exec |-> FALSE, ast |-> FALSE, msg |-> FALSE], entries |-> FALSE, memoOff |-> FALSE, act |-> "full"]
+    [] FAMILY = "memo" ->   \* C03 C04 C06: memo hits after the token buffer was overwritten by another branch
+         [cx |-> [alpha |-> <<97, 98>>, acts |-> TRUE, caps |-> TRUE, preds |-> FALSE, sugar |-> FALSE, capnull |-> FALSE, maxrules |-> 3, self |-> 1, n |-> 1],
+          depth |-> 0, optsets |-> <<"">>, exhaust |-> 4, alphaIn |-> <<97, 98>>, extraAlpha |-> <<97, 98, 99>>, nextra |-> 20,
+          collect |-> [toks |-> TRUE, exec |-> TRUE, ast |-> FALSE, msg |-> FALSE], entries |-> FALSE, memoOff |-> TRUE, act |-> "full"]
     [] FAMILY = "noast" ->  \* C07
-         [cx |-> [alpha |-> ABC, acts |-> TRUE, caps |-> TRUE, preds |-> TRUE, sugar |-> FALSE, maxrules |-> 3, self |-> 1, n |-> 1],
+         [cx |-> [alpha |-> ABC, acts |-> TRUE, caps |-> TRUE, preds |-> TRUE, sugar |-> FALSE, capnull |-> TRUE, maxrules |-> 3, self |-> 1, n |-> 1],
           depth |-> 3, optsets |-> All8, exhaust |-> 3, alphaIn |-> ABC, extraAlpha |-> <<97, 98, 99, 100>>, nextra |-> 10,
           collect |-> [toks |-> TRUE, exec |-> FALSE, ast |-> FALSE, msg |-> FALSE], entries |-> FALSE, memoOff |-> FALSE, act |-> "text"]
     [] FAMILY = "reuse" ->  \* C12: histories on one long-lived instance x Size x U
-         [cx |-> [alpha |-> ABC, acts |-> TRUE, caps |-> TRUE, preds |-> FALSE, sugar |-> FALSE, maxrules |-> 3, self |-> 1, n |-> 1],
+         [cx |-> [alpha |-> ABC, acts |-> TRUE, caps |-> TRUE, preds |-> FALSE, sugar |-> FALSE, capnull |-> FALSE, maxrules |-> 3, self |-> 1, n |-> 1],
           depth |-> 3, optsets |-> <<"", "is", "n">>, exhaust |-> 2, alphaIn |-> ABC, extraAlpha |-> <<97, 98, 99, 100>>, nextra |-> 12,
           collect |-> [toks |-> TRUE, exec |-> TRUE, ast |-> TRUE, msg |-> TRUE], entries |-> FALSE, memoOff |-> FALSE, act |-> "text"]
     [] FAMILY = "bytes" ->  \* C13: arbitrary Go strings as Buffer
-         [cx |-> [alpha |-> <<97, 0, 233, 65533, 128512, 1114111>>, acts |-> FALSE, caps |-> TRUE, preds |-> FALSE, sugar |-> TRUE, maxrules |-> 3, self |-> 1, n |-> 1],
+         [cx |-> [alpha |-> <<97, 0, 233, 65533, 128512, 1114111>>, acts |-> FALSE, caps |-> TRUE, preds |-> FALSE, sugar |-> TRUE, capnull |-> FALSE, maxrules |-> 3, self |-> 1, n |-> 1],
           depth |-> 3, optsets |-> <<"", "is">>, exhaust |-> 0, alphaIn |-> <<97>>, extraAlpha |-> <<97>>, nextra |-> 0,
           collect |-> [toks |-> TRUE, exec |-> FALSE, ast |-> TRUE, msg |-> TRUE], entries |-> FALSE, memoOff |-> FALSE, act |-> "full"]
 
@@ -202,13 +259,14 @@ Plan(G) ==
   IF FAMILY = "reuse" THEN
     <<PlanEntry("", TRUE, 0, "uint32", FALSE), PlanEntry("", TRUE, 1, "uint32", FALSE), PlanEntry("", TRUE, 4096, "uint32", FALSE),
       PlanEntry("", TRUE, 0, "uint16", FALSE), PlanEntry("", TRUE, 0, "uint64", FALSE), PlanEntry("", TRUE, 0, "uint", FALSE),
-      PlanEntry("", FALSE, 1, "uint16", FALSE)>>
+      PlanEntry("", FALSE, 1, "uint16", FALSE), PlanEntry("", FALSE, 0, "uint32", FALSE)>>
   ELSE
   <<PlanEntry("", TRUE, 0, "uint32", FALSE)>> \o
   (IF Fam.memoOff THEN <<PlanEntry("", FALSE, 0, "uint32", FALSE)>> ELSE <<>>) \o
   (IF Fam.entries THEN [k \in 1..(Len(G.rules) - 1) |-> PlanEntry(G.rules[k + 1].name, TRUE, 0, "uint32", TRUE)] ELSE <<>>)
 
 Candidate(n) == IF FAMILY = "switch" THEN GenSwitch(H(H(SEED, n), n \div 1499), Fam.cx)
+                ELSE IF FAMILY = "memo" THEN GenMemo(H(H(SEED, n), n \div 1499), Fam.cx)
                 ELSE GenGrammar(H(H(SEED, n), n \div 1499), Fam.cx, Fam.depth)
 
 Scenario(n) ==
